@@ -344,7 +344,7 @@ const BLOCK: usize = 4096;
 
 // ------------------------------------------------------------------------------ integration
 
-const DENSITIES: &[&str] = &["uniform", "triangular", "exponential", "gauss", "steep", "zero"];
+const DENSITIES: &[&str] = &["uniform", "triangular", "exponential", "gauss", "steep", "zero", "half-exponential", "epanechnikov", "comb"];
 
 /// ln density and the interval(s) it is integrated over
 fn ln_density(name: &str, a: f64, b: f64, x: f64) -> f64 {
@@ -359,6 +359,11 @@ fn ln_density(name: &str, a: f64, b: f64, x: f64) -> f64 {
         "exponential" => -x,
         "gauss" => -0.5 * x * x - 0.918_938_533_204_672_7,
         "steep" => -1000.0 * (x - a),
+        // densities that are exactly zero (ln = -inf) at interior grid points
+        "half-exponential" => if x >= 0.0 { -x } else { NEG_INF },
+        "epanechnikov" => if x.abs() < 1.0 { (0.75 * (1.0 - x * x)).ln() } else { NEG_INF },
+        // zero on every second unit interval
+        "comb" => if (x.floor() as i64).rem_euclid(2) == 0 { -0.1 * x.abs() } else { NEG_INF },
         _ => NEG_INF,
     }
 }
@@ -370,6 +375,9 @@ fn intervals(name: &str) -> Vec<(f64, f64)> {
         "exponential" => vec![(0.0, 1.0), (0.0, 10.0), (0.0, 50.0), (0.0, 800.0), (600.0, 700.0)],
         "gauss" => vec![(-4.0, 4.0), (-40.0, 40.0), (0.0, 8.0), (-1.0, 0.25)],
         "steep" => vec![(0.0, 1.0), (2.0, 2.5)],
+        "half-exponential" => vec![(-5.0, 5.0), (-1.0, 3.0)],
+        "epanechnikov" => vec![(-2.0, 2.0), (-1.0, 4.0)],
+        "comb" => vec![(0.0, 8.0), (-3.0, 3.0)],
         _ => vec![(0.0, 1.0)],
     }
 }
